@@ -130,9 +130,18 @@ def field_terms(us: Any) -> dict[str, Any]:
     }
 
 
+TZOFF = z3.Int("tzoff")   # environment: offset of the process time zone, seconds east of UTC
+TZ_CONSTRAINTS = [TZOFF >= -50400, TZOFF <= 50400, TZOFF % 900 == 0]
+
+
+def shift(us: SInt, delta: Any, dlo: int, dhi: int) -> SInt:
+    return SInt([(g, t + delta, lo + dlo, hi + dhi) for g, t, lo, hi in us.cases])
+
+
 class Interp:
     def __init__(self, source: str, ctx: fp.Ctx, extra_sources: Optional[dict[str, str]] = None):
         self.ctx = ctx
+        self.uses_tz = False
         self.tree = ast.parse(source)
         self.funcs: dict[str, ast.FunctionDef] = {}
         self.globals: dict[str, Any] = {}
@@ -224,7 +233,7 @@ class Interp:
         if isinstance(base, SDateTime):
             if name == "microsecond":
                 return SInt([(g, t % 1_000_000, 0, 999_999) for g, t, _, _ in base.us.cases])
-            if name in ("strftime", "replace", "timestamp"):
+            if name in ("strftime", "replace", "timestamp", "astimezone"):
                 return BoundMethod(base, name)
         if isinstance(base, SPVStr) and name in ("rstrip", "replace", "removesuffix", "strip"):
             return BoundMethod(base, name)
@@ -360,9 +369,16 @@ class Interp:
                 return self.to_float(args[0])
             if nm == "datetime.datetime.fromtimestamp":
                 tz = kw.get("tz", args[1] if len(args) > 1 else None)
+                inst = self.fromtimestamp(self.to_float(args[0]))
+                if tz is None:
+                    # naive local wall clock: depends on the process time zone (environment variable TZOFF)
+                    self.uses_tz = True
+                    return SDateTime(shift(inst, TZOFF * 10**6, -50400 * 10**6, 50400 * 10**6), False)
                 if not (isinstance(tz, Marker) and tz.name == "datetime.UTC"):
-                    raise NotEncodable("fromtimestamp without tz=UTC depends on the process time zone")
-                return SDateTime(self.fromtimestamp(self.to_float(args[0])), True)
+                    raise NotEncodable("fromtimestamp with a tz other than UTC")
+                return SDateTime(inst, True)
+            if nm == "datetime.datetime.utcfromtimestamp":
+                return SDateTime(self.fromtimestamp(self.to_float(args[0])), False)
             if nm == "datetime.datetime.fromisoformat" and len(args) == 1:
                 s = args[0]
                 if not isinstance(s, SPVStr):
@@ -408,11 +424,22 @@ class Interp:
                     if isinstance(tz, Marker) and tz.name == "datetime.UTC":
                         return SDateTime(o.us, True)
                     raise NotEncodable("replace(tzinfo=<not UTC>)")
+                if nm == "astimezone" and len(args) + len(kw) == 1:
+                    tz = args[0] if args else kw.get("tz")
+                    if not (isinstance(tz, Marker) and tz.name == "datetime.UTC"):
+                        raise NotEncodable("astimezone to a zone other than UTC")
+                    if o.aware:
+                        return o
+                    self.uses_tz = True   # a naive datetime is interpreted in the process time zone
+                    return SDateTime(shift(o.us, -TZOFF * 10**6, -50400 * 10**6, 50400 * 10**6), True)
                 if nm == "timestamp" and not args:
+                    src = o.us
                     if not o.aware:
-                        raise NotEncodable("naive .timestamp() depends on the process time zone")
+                        self.uses_tz = True
+                        src = shift(o.us, -TZOFF * 10**6, -50400 * 10**6, 50400 * 10**6)
+                        src = SInt([(z3.And(g, t >= 0), t, max(lo, 0), hi) for g, t, lo, hi in src.cases])
                     cases: list[fp.FCase] = []
-                    for g, t, lo, hi in o.us.cases:
+                    for g, t, lo, hi in src.cases:
                         cases += fp.rne_rational(self.ctx, g, t, Fr(10**6), Fr(lo, 10**6), Fr(hi, 10**6))
                     return SFloat(cases)
             if isinstance(o, SPVStr):
